@@ -103,3 +103,9 @@ def Exp.halfturns? {α : Type} [Neg α] [Mul α] [Div α] [NatCast α] (piH : α
   | .toFloat _ => none
 
 end GuppyVerif.Gate
+
+namespace GuppyVerif.Gate
+-- realise the equation lemmas of `halfturns?` here (so they are not attributed to a Props module)
+example : (Exp.neg .pi).halfturns? (1 : Int) = some (-1) := by
+  simp [Exp.halfturns?]
+end GuppyVerif.Gate
